@@ -64,9 +64,14 @@ impl Family for C19Family {
         }
         let n_actors = if r.chance(1, 4) { 3 } else { 2 };
         let mode = r.below(5);
+        // one run in six: hmac-secret authenticators and PRF requests on credentials without secrets --
+        // such an assertion fails *after* its counter write, which must not disturb the others
+        let failing_prf = r.chance(1, 6);
+        // one run in six: registrations for two RPs by users who have the same handle at both
+        let two_rps = r.chance(1, 6);
         for a in 0..n_actors {
             let mut actor = gen_actor(&mut r);
-            actor.hmac = HmacCfg::None;
+            actor.hmac = if failing_prf { HmacCfg::WithoutUv } else { HmacCfg::None };
             actor.id_len = 16 + (r.below(17) as u8);
             let n_ops = r.range(1, 2);
             for _ in 0..n_ops {
@@ -93,6 +98,9 @@ impl Family for C19Family {
                         s.allow = allow;
                         // one in five is a silent (up=false) assertion: it spends a counter value like any other
                         s.up = !r.chance(1, 5);
+                        if failing_prf && r.bool() {
+                            s.prf = Some(CtapPrf { eval: Some((r.bytes(32), None)), by_cred: None });
+                        }
                         OpKind::GetAssertion(s)
                     }
                 } else if r.chance(1, 4) {
@@ -101,9 +109,13 @@ impl Family for C19Family {
                     s.exclude = None;
                     OpKind::Register(s)
                 } else {
-                    let mut s = gen_mc(&mut r, rp);
+                    let reg_rp = if two_rps && r.bool() { "example.org" } else { rp };
+                    let mut s = gen_mc(&mut r, reg_rp);
                     s.exclude = None;
-                    s.rk = false;
+                    s.rk = two_rps && r.bool();
+                    if two_rps {
+                        s.user_id = vec![r.below(2) as u8];
+                    }
                     OpKind::MakeCredential(s)
                 };
                 let mut op = plain_op(kind);
@@ -164,7 +176,7 @@ impl Family for C19Family {
         if scn.batch == "enumerated" {
             stats.count("enumerated_interleavings_judged", 1);
         }
-        for p in ["overlapping_assertions_same_credential", "stale_snapshot_written_back", "register_overlaps_assert", "three_actors", "silent_assertion_on_counter_credential"] {
+        for p in ["overlapping_assertions_same_credential", "stale_snapshot_written_back", "register_overlaps_assert", "three_actors", "silent_assertion_on_counter_credential", "failed_assertion_after_counter_write", "same_user_handle_registered_for_two_rps"] {
             stats.declare_probe(p);
         }
         if rec.panic.is_some() {
@@ -207,6 +219,18 @@ impl Family for C19Family {
                 }
                 if let (Some(id), Some(ctr)) = (signer.or_else(|| returned_id(o)), reported_counter(o)) {
                     by_cred.entry(id).or_default().push((o.actor, o.idx, ctr));
+                }
+            }
+        }
+        // an assertion that failed after its counter write spent that value too
+        for o in &rec.ops {
+            let kind = &op_spec(c, o).kind;
+            if matches!(kind, OpKind::Authenticate(_) | OpKind::GetAssertion(_)) && !o.result.is_ok() {
+                for (_, save, cred, _) in applied(&rec, o) {
+                    if let (false, Some(ctr)) = (save, cred.counter) {
+                        by_cred.entry(cred.id.clone()).or_default().push((o.actor, o.idx, ctr));
+                        stats.probe("failed_assertion_after_counter_write");
+                    }
                 }
             }
         }
@@ -279,6 +303,10 @@ impl Family for C19Family {
         }
         if rec.choices.iter().any(|(_, n)| *n > 1) {
             stats.nontrivial.insert(rec.interleaving_sig());
+        }
+        let handles: Vec<_> = rec.final_store.iter().filter_map(|s| s.user_handle.as_ref().map(|h| (h, &s.rp_id))).collect();
+        if handles.iter().any(|(h, rp)| handles.iter().any(|(h2, rp2)| h == h2 && rp != rp2)) {
+            stats.probe("same_user_handle_registered_for_two_rps");
         }
         let regs = rec.ops.iter().any(|o| is_registration(&op_spec(c, o).kind));
         let asserts = rec.ops.iter().any(|o| is_authentication(&op_spec(c, o).kind));
